@@ -103,8 +103,12 @@ func main() {
 	dir := "/repo"
 	orch := false
 	args := os.Args[1:]
+	hsMode := false
 	if len(args) > 0 && args[0] == "-orch" { // the orchestration functions (orch*.go) -> lean/Bmc/Gen/Orch.lean
 		orch, args = true, args[1:]
+	}
+	if len(args) > 0 && args[0] == "-hs" { // session establishment (hs.go, on top of orch*.go) -> lean/Bmc/Gen/Hs.lean
+		hsMode, args = true, args[1:]
 	}
 	if len(args) > 0 {
 		dir = args[0]
@@ -147,6 +151,10 @@ func main() {
 	sort.Slice(g.modPkgs, func(i, j int) bool { return g.modPkgs[i].PkgPath < g.modPkgs[j].PkgPath })
 	if orch {
 		orchMain(g)
+		return
+	}
+	if hsMode {
+		hsMain(g)
 		return
 	}
 
